@@ -64,6 +64,8 @@ func ruleC18(r *Report) {
 	r.Rule("C18.xrv", "the bytes parsed are the bytes the round-trip validator accepted; both encodings", 1)
 	r.Rule("C18.inflate", "the redirect variant inflates only through the bounded reader", 1)
 	r.Rule("C18.nil", "no dereference of an absent Issuer or a rootless document on the logout path", 1)
+	r.Rule("C18.roots", "the signature validator the logout path relies on trusts only roots derived from SP configuration (shared with C01.roots: signing-use key descriptors, the fingerprint-matched certificate, the pinned certificate)", 3)
+	safely(r, func() { checkRootsAs(r, &spModel{P: p, Sc: sc}, sr, "C18.roots") })
 
 	opaque := map[*ssa.Function]bool{}
 	for _, v := range sr.Validators {
